@@ -210,7 +210,7 @@ class Generated:
         genv = {
             "type": lambda x: x.cls if isinstance(x, DType) else type(x),
             "reduce": functools.reduce,
-            "count": lambda: Record(kind="counter"),
+            "count": lambda *a: __import__("itertools").count(*a),
         }
         for k, v in mod.str_constants.items():
             genv[k] = v
@@ -258,9 +258,33 @@ class Generated:
                 continue
             body_names = {x.attr for x in ast.walk(r[1].node) if isinstance(x, ast.Attribute)} | {x.value for x in ast.walk(r[1].node) if isinstance(x, ast.Constant) and isinstance(x.value, str)}
             rets = [x.value for x in ast.walk(r[1].node) if isinstance(x, ast.Return) and x.value is not None]
-            if "codegen" in body_names:
+            # role at the call sites: used as a condition (filter of a comprehension, test of an if) -> the
+            # "is this type value-dependent" predicate; its result's .template / .substitutions read -> checking code
+            as_condition = as_codegen = False
+            for h in holders:
+                pmh = None
+                for c in ast.walk(h):
+                    if isinstance(c, ast.Call) and isinstance(c.func, ast.Name) and c.func.id == name:
+                        if pmh is None:
+                            from ..model import parent_map
+
+                            pmh = parent_map(h)
+                        par = pmh.get(c)
+                        if isinstance(par, ast.comprehension) and c in par.ifs:
+                            as_condition = True
+                        if isinstance(par, (ast.If, ast.IfExp, ast.While)) and par.test is c:
+                            as_condition = True
+                        if isinstance(par, ast.UnaryOp) and isinstance(par.op, ast.Not):
+                            as_condition = True
+                        if isinstance(par, ast.Attribute) and par.attr in ("template", "substitutions"):
+                            as_codegen = True
+                        if isinstance(par, ast.Assign) and len(par.targets) == 1 and isinstance(par.targets[0], ast.Name):
+                            v = par.targets[0].id
+                            if any(isinstance(x, ast.Attribute) and x.attr in ("template", "substitutions") and isinstance(x.value, ast.Name) and x.value.id == v for x in ast.walk(h)):
+                                as_codegen = True
+            if "codegen" in body_names or as_codegen:
                 genv[name] = generate_checking_code
-            elif rets and all(isinstance(x, ast.Constant) and isinstance(x.value, bool) for x in rets):
+            elif as_condition or (rets and all(isinstance(x, ast.Constant) and isinstance(x.value, bool) for x in rets)):
                 genv[name] = lambda t: isinstance(t, DType) and t.dep
             elif name not in genv:
                 genv[name] = (lambda nm: HostFn(lambda *a, **k: Record(kind="post", helper=nm, args=a, kwargs=k)))(name)
@@ -574,8 +598,9 @@ def with_fallback(ctx, laws, fallback, configs=None):
         law(ctx, *laws, configs=configs)
     except AnalysisError as e:
         del ctx.obs[n0:]
-        ctx.note(f"dependent generator not interpretable ({e}); emission-skeleton rules used instead")
         if fallback is not None:
-            fallback(ctx)
+            from .common import run_fallback
+
+            run_fallback(ctx, fallback, e, "dependent generator")
         else:
             raise
